@@ -26,6 +26,15 @@ structure Sym where
   sect : Sect
   guard : Bool       -- the `guard variable for` the object `name`
   key : Nat
+  leaf : Nat         -- `key!` of the unqualified identifier (text after the last `::`, `.N` dropped)
+  name : String
+  deriving Repr
+
+/-- a `static` non-const object declaration seen in the library *sources* (regex view, checks/C46.py) -/
+structure SrcStatic where
+  file : String
+  leaf : Nat         -- `key! "<identifier>"`
+  fileLeaf : Nat     -- `key! "<file>:<identifier>"`
   name : String
   deriving Repr
 
@@ -44,7 +53,33 @@ inductive Cls
   | vendoredUnused     -- storage of vendored code paths that Simbody's API never drives (f2c/Fortran interface glue)
   | toolchain          -- C/C++ runtime and linker artefacts (iostream init, dso handle, crtstuff, TLS guards, DW.ref)
   | visualizerIO       -- Visualizer process plumbing (pipes); not part of simulation
+  | verifHook          -- exists only in -DSIMBODY_VERIF builds: null/zero by default, written by no library code, only by a
+                       -- verification harness that injects values on purpose
   deriving DecidableEq, Repr
+
+/-- what a class asserts about every library operation (the two halves of "cannot make one simulation depend on
+another"): `frozen` objects are never written by an operation; `irrelevant` objects may be written, but no
+operation's result depends on their current value -/
+inductive Role
+  | frozen | irrelevant
+  deriving DecidableEq, Repr
+
+/-- the role each reviewed class claims.  Lazy first-use initialisation of a `constAfterInit` object is modelled as
+already done: its logical value is the (caller-independent) value of its initialiser. -/
+def Cls.role : Cls → Role
+  | .constAfterInit => .frozen
+  | .xmlOption => .frozen            -- changed only by an explicit user call, which is not a simulation operation
+  | .vendoredUnused => .frozen
+  | .toolchain => .frozen
+  | .visualizerIO => .frozen
+  | .verifHook => .frozen
+  | .threadScratch => .irrelevant
+  | .scratchOverwritten => .irrelevant
+  | .diagnostics => .irrelevant
+  | .seedCounter => .irrelevant      -- for simulations that do not use un-seeded `Random` objects
+  | .idCounter => .irrelevant
+  | .firstUseId => .irrelevant
+  | .idempotentRegistry => .irrelevant
 
 /-! ### interleaved execution -/
 
